@@ -55,7 +55,23 @@ fn base_instance(rng: &mut Rng, target: u64, kind: i32, bound: Option<(f64, f64)
         ids.insert(*rng.pick(&[0u64, 1, 2, 5, 9, 40, 1000, (1 << 32) + 7, (1 << 40)]));
     }
     ids.remove(&target);
-    let mut vars: Vec<v1::DecisionVariable> = ids.iter().map(|i| dvar(*i, KIND_CONTINUOUS, Some((-1.0, 1.0)))).collect();
+    // the other variables have nothing to do with the encoding, whatever (valid) kind and bound they have
+    let inf = f64::INFINITY;
+    let mut vars: Vec<v1::DecisionVariable> = ids
+        .iter()
+        .map(|i| {
+            let (kind, b) = *rng.pick(&[
+                (KIND_CONTINUOUS, Some((-1.0, 1.0))),
+                (KIND_CONTINUOUS, None),
+                (KIND_CONTINUOUS, Some((-inf, inf))),
+                (KIND_INTEGER, Some((0.0, inf))),
+                (KIND_INTEGER, None),
+                (KIND_BINARY, None),
+                (KIND_SEMI_CONTINUOUS, Some((-inf, 2.5))),
+            ]);
+            dvar(*i, kind, b)
+        })
+        .collect();
     let mut t = dvar(target, kind, bound);
     t.name = Some("t".into());
     vars.push(t);
@@ -135,6 +151,25 @@ fn scenario(k: u64, rng: &mut Rng, tier: Tier) -> Scenario {
                 }
             }
         }
+        5 if rng.chance(1, 3) => {
+            // an end exactly one ulp inside / outside an integer, the other end far away: the width u - l
+            // is then not representable and rounds to the next integer, floor(u) and ceil(l) do not
+            let step = |x: f64, up: bool| -> f64 {
+                if x == 0.0 {
+                    return if up { f64::from_bits(1) } else { -f64::from_bits(1) };
+                }
+                let b = x.to_bits();
+                f64::from_bits(if (x > 0.0) == up { b + 1 } else { b - 1 })
+            };
+            let k = rng.range(-40, 40) as f64;
+            let far = (1i64 << rng.range(2, 20)) as f64;
+            match rng.below(4) {
+                0 => (k - far, step(k, false)),
+                1 => (k - far, step(k, true)),
+                2 => (step(k, true), k + far),
+                _ => (step(k, false), k + far),
+            }
+        }
         5 => {
             // bounds a hair's breadth on either side of an integer
             let a = rng.range(-1000, 1000);
@@ -193,7 +228,7 @@ impl Property for C12 {
         }
     }
     fn rule(&self) -> &'static str {
-        "cases 0..W*5 enumerate every width 0..W-1 (W=513 quick, 4097 thorough) at 5 offsets/shapes (0, -3, fractional ends around 1000.5, -2^20, fractional centred); the remaining cases draw random ranges with |l|,|u| <= 2^20 (integers, powers of two +-1, fractional ends, the corners [-2^20, 2^20] and widths 2^k+d anchored at them, bounds within 1e-12..1e-6 of an integer on either side) and, every 8th case, one error class (unknown id, also in an instance without any variable, binary / continuous / semi-integer / semi-continuous kind, no bound, upper / lower / both bounds infinite, a NaN bound end, no integer inside). For each success the set of values of the returned Linear over all bit patterns is computed exactly by subset-sum reachability (width <= 2^16) or the complete-sequence criterion and must equal {ceil(l)..floor(u)}; the appended variables are checked; failures must leave the instance equal. The bit loop is observed through hook log_encode.bit with a budget of 1100 steps. Non-trivial = every case with width >= 1; distinct = fingerprint of (lower, upper, variable layout)."
+        "cases 0..W*5 enumerate every width 0..W-1 (W=513 quick, 4097 thorough) at 5 offsets/shapes (0, -3, fractional ends around 1000.5, -2^20, fractional centred); the remaining cases draw random ranges with |l|,|u| <= 2^20 (integers, powers of two +-1, fractional ends, the corners [-2^20, 2^20] and widths 2^k+d anchored at them, bounds within 1e-12..1e-6 of an integer on either side, an end exactly one ulp away from an integer with the other end up to 2^19 away) and, every 8th case, one error class (unknown id, also in an instance without any variable, binary / continuous / semi-integer / semi-continuous kind, no bound, upper / lower / both bounds infinite, a NaN bound end, no integer inside). For each success the set of values of the returned Linear over all bit patterns is computed exactly by subset-sum reachability (width <= 2^16) or the complete-sequence criterion and must equal {ceil(l)..floor(u)}; the appended variables are checked; failures must leave the instance equal. The bit loop is observed through hook log_encode.bit with a budget of 1100 steps. Non-trivial = every case with width >= 1; distinct = fingerprint of (lower, upper, variable layout)."
     }
     fn assumptions(&self) -> Vec<&'static str> {
         vec!["variable ids < 2^62 (fresh ids are max+1); bounds are finite f64 with |.| <= 2^20 except in the error classes"]
